@@ -64,3 +64,77 @@ Section Cache.
   (* what a fresh object answers to the same call *)
   Definition c01_stateless (op : c01_op) : c01_grid := snd (c01_step false None op).
 End Cache.
+
+(* ---- the CALLER overwrites, in place, arrays it was handed ----
+   A call may be followed by such an overwrite, given as the effect g it would have on the cache IF the returned arrays are
+   the cache itself or a view of it.  In AreaDefinition.get_lonlats the numpy result aliases self.lons exactly when the
+   cache is set after the call (it was returned from the cache, or it has just been stored); get_lonlat returns Python
+   floats and colrow2lonlat never touches the cache. *)
+Section Mutation.
+  Context {T : Type} (OP : ops T) (invT invP : T * T -> T * T) (a : area T).
+  Inductive c01_mop := MCall (op : c01_op) (overwrite : option (list (list (T * T)) -> list (list (T * T)))).
+  Definition c01_mop_op (m : c01_mop) : c01_op := match m with MCall op _ => op end.
+
+  Definition c01_mstep (st : option (list (list (T * T)))) (m : c01_mop) : option (list (list (T * T))) * list (list (T * T)) :=
+    match m with
+    | MCall op ow =>
+        let '(st', o) := c01_step OP invT invP a false st op in
+        let st'' := match ow, op, st' with
+                    | Some g, OpLonlats _ _ _, Some c => Some (g c)       (* the caller's arrays ARE (a view of) the cache *)
+                    | _, _, _ => st'
+                    end in
+        (st'', o)
+    end.
+  Fixpoint c01_mrun (st : option (list (list (T * T)))) (ms : list c01_mop) : list (list (list (T * T))) :=
+    match ms with
+    | [] => []
+    | m :: rest => let '(st', o) := c01_mstep st m in o :: c01_mrun st' rest
+    end.
+
+  (* the 1-D projection vectors: AreaDefinition keeps NO memo of them ([memo = false]); [memo = true] is the variant that
+     stores the default numpy vectors and hands the same arrays to every caller *)
+  Inductive c01_vop := VGet | VOverwrite (f : T -> T).     (* get_proj_vectors() / the caller overwrites the returned x vector *)
+  Definition c01_vstep (memo : bool) (st : option (list T)) (op : c01_vop) : option (list T) * option (list T) :=
+    match op with
+    | VGet => match st with
+              | Some v => (st, Some v)
+              | None => let v := c01_vec_x OP a 0 (width a) in ((if memo then Some v else None), Some v)
+              end
+    | VOverwrite f => (option_map (map f) st, None)          (* the array the caller holds IS the memo, when there is one *)
+    end.
+  Fixpoint c01_vrun (memo : bool) (st : option (list T)) (ops : list c01_vop) : list (option (list T)) :=
+    match ops with
+    | [] => []
+    | op :: rest => let '(st', o) := c01_vstep memo st op in o :: c01_vrun memo st' rest
+    end.
+End Mutation.
+Arguments MCall {T}.
+Arguments VGet {T}.
+Arguments VOverwrite {T}.
+
+(* ---- several lazy results in ONE dask.compute: the task graphs are merged by task NAME ----
+   A graph is a list of (name, value); merging is concatenation; a task is looked up by name (first hit).  *)
+Section Joint.
+  Context {K V : Type} (keq : K -> K -> bool).
+  Fixpoint c01_glookup (g : list (K * V)) (k : K) : option V :=
+    match g with
+    | [] => None
+    | (k', v) :: r => if keq k' k then Some v else c01_glookup r k
+    end.
+  Definition c01_graph {Task : Type} (name : Task -> K) (val : Task -> V) (tasks : list Task) : list (K * V) :=
+    map (fun t => (name t, val t)) tasks.
+End Joint.
+
+(* the tasks of _proj_coords_dask: everything map_blocks passes to _generate_2d_coords plus the block's array-location *)
+Record c01_task (T : Type) := mk_task { t_psx : T; t_psy : T; t_ulx : T; t_uly : T; t_r0 : Z; t_r1 : Z; t_c0 : Z; t_c1 : Z }.
+Arguments mk_task {T}. Arguments t_psx {T}. Arguments t_psy {T}. Arguments t_ulx {T}. Arguments t_uly {T}.
+Arguments t_r0 {T}. Arguments t_r1 {T}. Arguments t_c0 {T}. Arguments t_c1 {T}.
+Section JointCoords.
+  Context {T : Type} (OP : ops T).
+  (* _generate_2d_coords computes the block from those arguments alone *)
+  Definition c01_task_value (t : c01_task T) : list (list (T * T)) :=
+    c01_mesh (map (fun c => add OP (mul OP (ofZ OP c) (t_psx t)) (t_ulx t)) (c01_range (t_c0 t) (t_c1 t)))
+             (map (fun r => add OP (mul OP (ofZ OP r) (neg OP (t_psy t))) (t_uly t)) (c01_range (t_r0 t) (t_r1 t))).
+  Definition c01_task_of (a : area T) (r0 r1 c0 c1 : Z) : c01_task T :=
+    mk_task (pixel_size_x OP a) (pixel_size_y OP a) (upl_x OP a) (upl_y OP a) r0 r1 c0 c1.
+End JointCoords.
